@@ -381,6 +381,82 @@ mod cliflags {
 	}
 }
 
+mod signals {
+	use super::*;
+	use std::{os::unix::process::ExitStatusExt, process::ExitStatus, str::FromStr};
+	use watchexec_events::ProcessEnd;
+	use watchexec_signals::Signal;
+
+	fn os_number(s: Signal) -> Value {
+		s.to_nix().map_or(Value::Null, |n| json!(n as i32))
+	}
+
+	fn recase(text: &str, case: &str) -> String {
+		match case {
+			"lower" => text.to_ascii_lowercase(),
+			"mixed" => text
+				.chars()
+				.enumerate()
+				.map(|(i, c)| if i % 2 == 0 { c.to_ascii_uppercase() } else { c.to_ascii_lowercase() })
+				.collect(),
+			_ => text.to_ascii_uppercase(),
+		}
+	}
+
+	pub fn run(case: &Value) -> Value {
+		match case["kind"].as_str().unwrap() {
+			"parse" => {
+				let text = recase(case["text"].as_str().unwrap(), case["lettercase"].as_str().unwrap());
+				match Signal::from_str(&text) {
+					Ok(s) => json!({"n": os_number(s), "text": text}),
+					Err(e) => json!({"error": e.to_string(), "text": text}),
+				}
+			}
+			"display_custom" => {
+				let s = Signal::Custom(case["n"].as_i64().unwrap() as i32);
+				let shown = s.to_string();
+				match Signal::from_str(&shown) {
+					Ok(back) => json!({"n": os_number(back), "text": shown}),
+					Err(e) => json!({"error": e.to_string(), "text": shown}),
+				}
+			}
+			"display_first" => {
+				let s = match case["name"].as_str().unwrap() {
+					"Hangup" => Signal::Hangup,
+					"ForceStop" => Signal::ForceStop,
+					"Interrupt" => Signal::Interrupt,
+					"Quit" => Signal::Quit,
+					"Terminate" => Signal::Terminate,
+					"User1" => Signal::User1,
+					_ => Signal::User2,
+				};
+				let shown = s.to_string();
+				match Signal::from_str(&shown) {
+					Ok(back) => json!({"n": os_number(back), "direct": os_number(s), "text": shown}),
+					Err(e) => json!({"error": e.to_string(), "text": shown}),
+				}
+			}
+			"from_number" => {
+				let s = Signal::from(case["n"].as_i64().unwrap() as i32);
+				json!({"n": os_number(s)})
+			}
+			"status" => {
+				let raw = case["raw"].as_i64().unwrap() as i32;
+				let end = ProcessEnd::from(ExitStatus::from_raw(raw));
+				match end {
+					ProcessEnd::Success => json!({"d": "success", "v": 0}),
+					ProcessEnd::ExitError(c) => json!({"d": "error", "v": c.get()}),
+					ProcessEnd::ExitSignal(s) => json!({"d": "signal", "v": os_number(s)}),
+					ProcessEnd::ExitStop(c) => json!({"d": "stop", "v": c.get()}),
+					ProcessEnd::Exception(c) => json!({"d": "exception", "v": c.get()}),
+					ProcessEnd::Continued => json!({"d": "continued", "v": 0}),
+				}
+			}
+			other => json!({"error": format!("unknown kind {other}")}),
+		}
+	}
+}
+
 fn main() {
 	let args: Vec<String> = std::env::args().collect();
 	let kind = args[1].clone();
@@ -438,6 +514,7 @@ fn main() {
 							"origins" => origins::run(case, &scratch).await,
 							"ignore" => ignore::run(case, &scratch).await,
 							"cliflags" => cliflags::run(case, &scratch).await,
+							"signals" => signals::run(case),
 							other => panic!("unknown kind {other}"),
 						}
 					})
